@@ -76,12 +76,17 @@ func (p *Proxy) ServeTCP(in net.Conn) error {
 
 	errc := make(chan error, 2)
 	cp := func(dst io.Writer, src io.Reader, c gkm.Counter) {
-		errc <- copyBuffer(dst, src, c)
+		errc <- halfClose(dst, copyBuffer(dst, src, c))
 	}
 
 	go cp(in, out, t.RxCounter)
 	go cp(out, in, t.TxCounter)
 	err = <-errc
+	if err == nil {
+		// one direction has ended and the other side has been told:
+		// let the opposite direction deliver what is still on its way
+		<-errc
+	}
 	if err != nil && err != io.EOF {
 		log.Print("[WARN]: tcp:  ", err)
 		return err
